@@ -193,7 +193,8 @@ def r4(repo, res):
             return
         dumps = [c_ for c_ in calls if c_[0] == "_dump_alignments"]
         want = 1 if (kind == "sam" and debug) else 0
-        ok = k == "return" and len(dumps) == want
+        built = [c_ for c_ in calls if c_[0] == "_make_coverage"]
+        ok = k == "return" and len(dumps) == want and len(built) == 1 and built[0][1] == (tables["norm"], tables["muts"])   # the evidence is built once, from what was loaded
         if ok and want:
             a_ = dumps[0][1]
             ok = len(a_) == 3 and isinstance(a_[0], str) and a_[1] == tables["norm"] and a_[2] == tables["muts"]
@@ -754,6 +755,8 @@ MUTANTS = [
          old='            if self.kind == "sam" and debug:', new='            if self.kind == "sam" and debug and not self.is_long_read:'),
     dict(name="R4 dump receives a fresh variant table", module="sam", expect="C17.R4",
          old='self._dump_alignments(f"{debug}.{gene.name}", norm, muts)', new='self._dump_alignments(f"{debug}.{gene.name}", norm, {})'),
+    dict(name="R4 evidence never built from the loaded tables", module="sam", expect=["C17.R4", "C16.R6"],
+         old="            self._make_coverage(norm, muts)\n            if self.kind", new="            if self.kind"),
     dict(name="R8 debug run skipped", module="__main__", expect="C17.R8",
          old="                run(prefix)\n", new="                pass\n"),
     dict(name="benign: archive only when the run did not crash", module="__main__", kind="benign",
